@@ -1911,6 +1911,227 @@ def check_C17(cx):
 
 
 
+# ------------------------------------------------------------------------------------------
+# C18 — concurrency
+# ------------------------------------------------------------------------------------------
+
+SHARED_AUDITED = {"instr_table_index": "atomic, rebuilt with the same values by every create (C18 model)",
+                  "opd_format_table_index": "atomic, rebuilt with the same values by every create (C18 model)",
+                  "FIXED_NOP_LENGTH": "pointer table to the NOP byte strings, initialised statically, never stored to"}
+
+
+def writable_globals():
+    """T5: data/bss symbols of the library objects (compound literals = the NOP byte strings)"""
+    os_symbols()      # (compiles the objects into the cache)
+    d = os.path.join(alv.CACHE, "nm")
+    out = set()
+    for f in alv.lib_c_files():
+        o = os.path.join(d, os.path.basename(f) + ".o")
+        txt = subprocess.run(["nm", o], stdout=subprocess.PIPE).stdout.decode()
+        for ln in txt.split("\n"):
+            t = ln.split()
+            if len(t) == 3 and t[1] in "DdBbCGgSs":
+                out.add(t[2])
+    return out
+
+
+def stores_to(sym):
+    """source lines of the library that assign to a global (textual: `sym[...] =` or `sym =`)"""
+    hits = []
+    for f in alv.lib_c_files():
+        for n, ln in enumerate(open(f, errors="replace"), 1):
+            if re.search(r"\b%s\b\s*(\[[^\]]*\])?\s*(=(?!=)|\+=|-=|\+\+|--)" % re.escape(sym), ln) and not re.match(r"\s*(static\s+)?(const\s+)?[\w\s\*\(\)]+\b%s\b.*=\s*\{" % re.escape(sym), ln):
+                hits.append("%s:%d" % (os.path.basename(f), n))
+    return hits
+
+
+def check_C18(cx):
+    thms = ["AL.Properties.C18." + t for t in ["slot_invariant", "stored_slot_stays", "load_after_own_create", "lookup_alone", "format_lookup_alone",
+            "snapshot_is_final"]]
+    info = stage_proofs(cx, "AL.Properties.C18", thms)
+    if not info:
+        return finish(cx, "")
+    try:
+        glob = writable_globals()
+    except alv.BuildError as e:
+        cx.oblige("T5 writable globals of the library objects", False, str(e))
+        return finish(cx, "")
+    unknown = sorted(g for g in glob if g not in SHARED_AUDITED and not g.startswith("__compound_literal"))
+    cx.oblige("T5 the writable globals of the library objects are the audited ones (%d symbols)" % len(glob), not unknown, json.dumps(unknown))
+    written = {g: stores_to(g) for g in glob if not g.startswith("__compound_literal")}
+    bad_written = {g: w for g, w in written.items() if w and g not in ("instr_table_index", "opd_format_table_index")}
+    idx_sites = sorted(set(w.split(":")[0] for g in ("instr_table_index", "opd_format_table_index") for w in written.get(g, [])))
+    cx.oblige("T5 only the two index tables are stored to, and only in assemblyline.c (asm_build_index_tables)",
+              not bad_written and idx_sites in ([], ["assemblyline.c"]), json.dumps({"other": bad_written, "index_stores_in": idx_sites}))
+    nonreentrant = {"strtok", "strerror", "rand", "srand", "random", "localtime", "gmtime", "ctime", "asctime", "tmpnam", "getenv", "setlocale",
+                    "strsignal", "ttyname", "readdir", "getpwnam", "getpwuid", "gethostbyname", "ecvt", "fcvt", "basename", "dirname", "lgamma"}
+    used = sorted(os_symbols() & nonreentrant)
+    cx.oblige("T5 the library objects call no libc function with hidden static state (strtok, strerror, rand, localtime, ...)", not used, json.dumps(used))
+    if used:
+        cx.violations.append({"kind": "shared-state", "functions": used,
+                              "what": "the library calls a libc function that keeps process-wide state: two threads using their own instances "
+                                      "share it (for strtok: the position inside the operand string being parsed)"})
+    # the tables are atomic objects
+    hdr = open(os.path.join(alv.REPO, "src", "instructions.h")).read() + open(os.path.join(alv.REPO, "src", "instructions.c")).read()
+    atomic = all(re.search(r"_Atomic\s*\(\s*int\s*\)\s*%s|atomic_int\s+%s" % (n, n), hdr) for n in ("instr_table_index", "opd_format_table_index"))
+    cx.oblige("T5 the two index tables are declared _Atomic", atomic)
+    # T1 dumps the tables after a create: the model's instrIndex/opdIndex are those values (regen cross-check)
+    quick = cx.tier == "quick"
+    viol = 0
+    runs = []
+    for flavour in ("tsan", "o2"):
+        impl = build_impl(cx, name="thrdrv", flavour=flavour)
+        if not impl:
+            return finish(cx, "")
+        for n, rounds in ([(2, 3), (8, 4), (16, 3)] if quick else [(2, 10), (4, 20), (8, 20), (16, 20), (32, 10), (64, 5)]):
+            env = dict(os.environ, TSAN_OPTIONS="halt_on_error=0 exitcode=66 report_signal_unsafe=0")
+            p = subprocess.run([impl, str(n), str(rounds)], stdout=subprocess.PIPE, stderr=subprocess.PIPE, env=env, timeout=3000)
+            out = p.stdout.decode("latin1").strip().split("\n")
+            err = p.stderr.decode("latin1")
+            races = err.count("WARNING: ThreadSanitizer")
+            last = out[-1] if out else ""
+            m = re.search(r"steps=(\d+) ok_steps=(\d+) failing_steps=(\d+) mismatches=(\d+)", last)
+            runs.append([flavour, n, rounds, last])
+            if p.returncode not in (0,) or races or not m or m.group(4) != "0":
+                viol += 1
+                i = err.find("WARNING: ThreadSanitizer")
+                cx.violations.append({"kind": "threads", "build": flavour, "threads": n, "rounds": rounds, "exit": p.returncode, "tsan_reports": races,
+                                      "result": out[-6:], "first_report": err[i:i + 1800] if i >= 0 else err[-600:],
+                                      "what": "data race reported on library state" if races else "a thread's results differ from running alone"})
+            elif m:
+                cx.count(int(m.group(1)) * n, [])
+    cx.nontrivial.update((r[0], r[1], r[2]) for r in runs)
+    cx.cov["samples"] = runs[:4]
+    cx.dist = {"runs": runs, "globals": sorted(glob)[:8]}
+    cx.assumptions.append("the C11 memory model for _Atomic int accesses (sequentially consistent) and libc's internal locking are assumed; races on "
+                          "non-atomic objects are observed by ThreadSanitizer over the schedules that occurred, not proved absent")
+    return finish(cx, "2..64 threads each looping create (internal and caller buffer) / all three option setters / assemble in plain, fitting and "
+                  "counting mode over 8 programs (valid, rejected, all instruction classes) / destroy on private instances, under ThreadSanitizer and "
+                  "at -O2: no race report, and every thread's return values, offsets, counts and code hashes equal the single-threaded reference; "
+                  "distinct = distinct (build, threads, rounds) runs")
+
+
+
+# ------------------------------------------------------------------------------------------
+# C19 — file entry points
+# ------------------------------------------------------------------------------------------
+
+def check_C19(cx):
+    thms = ["AL.Properties.C19." + t for t in ["readLoop_all", "read_all", "file_equals_str", "file_equals_str_text", "file_counting_equals_str",
+            "missing_file_fails"]] + ["AL.Properties.C17.bin_file_complete", "AL.Properties.C17.bin_file_success_iff"]
+    info = stage_proofs(cx, "AL.Properties.C19", thms)
+    impl = build_impl(cx)
+    if not (info and impl):
+        return finish(cx, "")
+    g = cases.Gen(cx.seed, info["tables"])
+    r = g.r
+    quick = cx.tier == "quick"
+    tmp = os.path.join(alv.CACHE, "filetmp_%d" % os.getpid())
+    os.makedirs(tmp, exist_ok=True)
+    os.makedirs(os.path.join(tmp, "adir"), exist_ok=True)
+    page = os.sysconf("SC_PAGE_SIZE")
+    sizes = list(range(0, 65)) + [k * page + d for k in (1, 2, 3) for d in range(-40, 41)]
+    if quick:
+        sizes = list(range(0, 40, 3)) + [k * page + d for k in (1, 2) for d in (-33, -2, -1, 0, 1, 2, 17)]
+    unit = [b"nop\n", b"ret\n", b"add rax, rcx\n", b"mov rcx, 0x11\n", b"; c\n", b"\n", b"push r12\n", b"mulx rax, rbx, [rcx+8]\n"]
+    files = []     # (name, content)
+    def content_of(size, newline, bad=False):
+        out = b""
+        while len(out) < size:
+            out += r.choice(unit)
+        out = out[:size]
+        # cut inside a line: make the tail a comment so that the text stays valid, unless a rejected program is wanted
+        k = out.rfind(b"\n")
+        tail = out[k + 1:]
+        body = out[:k + 1] + (b";" * len(tail))
+        if newline and body and not body.endswith(b"\n"):
+            body = body[:-1] + b"\n"
+        if bad and len(body) > 12:
+            body = b"bogus rax\n" + body[10:]
+        return body
+    for n, size in enumerate(sizes):
+        for nl in (False, True):
+            files.append(("f%d_%d" % (n, nl), content_of(size, nl)))
+    for n in range(6 if quick else 40):
+        files.append(("bad%d" % n, content_of(r.choice([30, 200, page, page + 5]), True, bad=True)))
+    for n in range(8 if quick else 60):
+        files.append(("prog%d" % n, g.program(r.choice([3, 10, 40]))))
+    files = [(nm, bytes(x for x in c if x != 0)) for nm, c in files]
+    hists, meta = [], []
+    for nm, content in files:
+        path = os.path.join(tmp, nm)
+        open(path, "wb").write(content)
+        opt = r.choice(cases.OPTS)
+        setopt = ["S %d mov %d" % (i, opt & 3) for i in (0, 1)] + ["S %d swap %d" % (i, (opt >> 2) & 1) for i in (0, 1)] + \
+                 ["S %d nobase %d" % (i, (opt >> 3) & 1) for i in (0, 1)]
+        start = r.choice([0, 0, 7, 100])
+        c = r.choice([2, 5, 16, 64])
+        h = ["N 0 -", "N 1 -"] + setopt + ["O 0 %d" % start, "O 1 %d" % start,
+             "R 0 %s %s" % (path, cases.hexs(content)), "A 1 %s" % cases.hexs(content), "D 0 0 400", "D 1 0 400",
+             "U 0 %d %s %s 1" % (c, path, cases.hexs(content)), "C 1 %d %s 1" % (c, cases.hexs(content)), "D 0 0 600", "D 1 0 600",
+             "F 0", "F 1"]
+        hists.append(h)
+        meta.append((nm, len(content)))
+    # missing file, directory, unreadable path
+    for bad in (os.path.join(tmp, "does_not_exist.asm"), os.path.join(tmp, "adir"), os.path.join(tmp, "no", "such", "dir", "x.asm"), ""):
+        if not bad:
+            continue
+        h = ["N 0 200 cc", "A 0 %s" % cases.hexs(b"nop\nret"), "R 0 %s missing" % bad, "G 0", "U 0 8 %s missing 1" % bad, "G 0", "D 0 0 40",
+             "A 0 %s" % cases.hexs(b"ret"), "F 0"]
+        hists.append(h)
+        meta.append(("missing", bad))
+    # binary output at all offsets of a short program, and an unwritable path
+    prog = b"mov rax, 0x1122334455667788\nvaddpd ymm1, ymm2, [rax+r9*8+16]\npush r12\nret\n"
+    outp = os.path.join(tmp, "out.bin")
+    for off in list(range(0, 30)) + [-1, -5]:
+        h = ["N 0 300 cc", "A 0 %s" % cases.hexs(prog), "O 0 %d" % off, "W 0 %s ok" % outp, "D 0 0 %d" % max(off, 0), "F 0"]
+        hists.append(h)
+        meta.append(("bin", off))
+    hists.append(["N 0 300 cc", "A 0 %s" % cases.hexs(prog), "W 0 %s bad" % os.path.join(tmp, "no", "such", "dir", "o.bin"), "F 0"])
+    meta.append(("bin", "unwritable"))
+    ops, out = tie_api_mod_lf(cx, impl, hists, "C19 file entry points vs model (readFile / asmAssembleFile / createBinFile)")
+    pos = 0
+    nv = 0
+    for m, h in zip(meta, hists):
+        o = out[pos:pos + len(h)]
+        pos += len(h)
+        if len(o) < len(h):
+            break
+        bad = None
+        if m[0] == "missing":
+            if o[2].split()[0] != "1" or o[4].split()[0] != "1" or o[3] != o[1].split()[1] or o[5] != o[3] or o[7].split()[0] != "0":
+                bad = "a missing or unreadable file does not yield EXIT_FAILURE with the instance unchanged and usable"
+        elif m[0] == "bin":
+            rc, filehex = o[3].split() if m[1] != "unwritable" else o[2].split()
+            if m[1] == "unwritable":
+                if rc != "1":
+                    bad = "asm_create_bin_file reports success for a path it cannot create"
+            else:
+                want = o[4] if m[1] > 0 else "-"
+                if rc != "0" or filehex != want:
+                    bad = "the created file does not hold exactly the bytes [0, asm_get_offset)"
+        else:
+            if o[10] != o[11] or o[12] != o[13] or o[14] != o[15] or o[16] != o[17]:
+                bad = "the file entry point and the string entry point on the file's contents differ"
+        if bad and nv < 6:
+            nv += 1
+            cx.violations.append({"kind": "file", "case": list(m), "history": [x[:200] for x in h], "outputs": [x[:200] for x in o], "what": bad})
+    import shutil
+    shutil.rmtree(tmp, ignore_errors=True)
+    cx.nontrivial.update(meta)
+    cx.cov["samples"] = [[x[:120] for x in hists[5]], list(meta[-3])]
+    cx.dist = {"file_sizes": "%d sizes (0..64 and around 1,2,3 pages of %d bytes), with and without final newline" % (len(sizes), page),
+               "rejected_programs": sum(1 for m in meta if str(m[0]).startswith("bad")), "generated_programs": sum(1 for m in meta if str(m[0]).startswith("prog")),
+               "missing_paths": 3, "bin_offsets": 32}
+    cx.assumptions.append("the file system returns what was written (the harness writes each file itself just before the call)")
+    return finish(cx, "files of every size 0..64 and within 40 bytes of 1, 2 and 3 pages, ending with and without a newline, valid, rejected and generated "
+                  "programs: asm_assemble_file / asm_assemble_file_counting_chunks on one instance vs asm_assemble_str / "
+                  "asm_assemble_string_counting_chunks on a twin with the same options and offset (return values, offsets, counts, buffer bytes); "
+                  "missing file, directory, missing directory; asm_create_bin_file at every offset 0..29 and negative offsets of a program, file "
+                  "contents read back; every history also run on the Lean model; distinct = distinct cases")
+
+
+
 def history_around(ops, idx):
     """the ops of the history that contains op number idx (a history starts at its first N op
     after an F op or at the beginning)"""
@@ -1923,7 +2144,7 @@ def history_around(ops, idx):
     return ops[start:end + 1]
 
 
-CHECKS = {"C12": check_C12, "C07": check_C07, "C06": check_C06, "C13": check_C13, "C14": check_C14, "C08": check_C08, "C15": check_C15, "C16": check_C16, "C10": check_C10, "C09": check_C09, "C11": check_C11, "C01": check_enc, "C02": check_enc, "C03": check_enc, "C04": check_enc, "C05": check_enc, "C17": check_C17}
+CHECKS = {"C12": check_C12, "C07": check_C07, "C06": check_C06, "C13": check_C13, "C14": check_C14, "C08": check_C08, "C15": check_C15, "C16": check_C16, "C10": check_C10, "C09": check_C09, "C11": check_C11, "C01": check_enc, "C02": check_enc, "C03": check_enc, "C04": check_enc, "C05": check_enc, "C17": check_C17, "C18": check_C18, "C19": check_C19}
 
 
 def run_check(prop, tier, seed):
